@@ -257,8 +257,7 @@ def check_formulas(ctx, fb):
             if not muts:
                 continue
             n_m += 1
-            g = [(a, v) for a, v in p.conds() if a[0] == "b" and a[1] == ("bin", "Lt", P(2), NI)]
-            if not (g and g[0][1] is True):
+            if not holds_lt(p.conds(), P(2), NI):
                 ok = False
             if any(e[0] == "write" and e[2] == (("f", "next_index"),) for e in p.trace):
                 ok = False
